@@ -1081,3 +1081,378 @@ Proof.
     + apply cat_xor_sym. now apply (H v).
     + rewrite (nodup_binding_unique by_ v c1 c2 Hny H1 H2). apply cat_xor_refl.
 Qed.
+
+(* ================= the ORDER of the tests: x_features keys in insertion order ================= *)
+Notation knew := (new_keys key_eqb).
+Definition keys_of (vc : text * cat) : list key := map fst (entries vc).
+
+Lemma new_keys_app A : forall seen B, knew seen (A ++ B) = knew seen A ++ knew (seen ++ knew seen A) B.
+Proof.
+  induction A as [|k A IH]; intros seen B; cbn [app new_keys].
+  - now rewrite app_nil_r.
+  - destruct (existsb (key_eqb k) seen); [apply IH|].
+    cbn [app]. rewrite IH. now rewrite <- !app_assoc.
+Qed.
+Lemma new_keys_all_seen seen l : (forall k, In k l -> In k seen) -> knew seen l = [].
+Proof.
+  induction l as [|k l IH]; intros H; cbn [new_keys]; [reflexivity|].
+  assert (Hk : existsb (key_eqb k) seen = true) by (apply (existsb_keqb _ key_eqb_eq); apply H; now left).
+  rewrite Hk. apply IH. intros k' Hk'. apply H. now right.
+Qed.
+Lemma new_keys_fresh l : forall seen, NoDup l -> (forall k, In k l -> ~ In k seen) -> knew seen l = l.
+Proof.
+  induction l as [|k l IH]; intros seen Hn H; cbn [new_keys]; [reflexivity|].
+  inversion Hn as [|? ? Hk Hn']; subst.
+  assert (Hs : existsb (key_eqb k) seen = false).
+  { destruct (existsb (key_eqb k) seen) eqn:E; [|reflexivity]. apply (existsb_keqb _ key_eqb_eq) in E. exfalso. apply (H k); [now left | exact E]. }
+  rewrite Hs. f_equal. apply IH; [exact Hn'|]. intros k' Hk' Hin. apply in_app_or in Hin as [Hin|[Hin|[]]].
+  - apply (H k'); [now right | exact Hin].
+  - subst. contradiction.
+Qed.
+
+Lemma keys_of_In v c w k : In (w, k) (keys_of (v, c)) <-> w = v /\ entry_get c k <> None.
+Proof.
+  unfold keys_of. pose proof (alast_none key_eqb key_eqb_eq (w, k) (entries (v, c))) as H.
+  pose proof (entries_get v c w k) as Hg.
+  destruct (text_eqb w v) eqn:E.
+  - apply text_eqb_eq in E. subst w. split.
+    + intros Hin. split; [reflexivity|]. intros Hn. rewrite Hg in H. now apply H in Hn.
+    + intros [_ Hn]. destruct (kalast (v, k) (entries (v, c))) as [f|] eqn:Ea; [|congruence].
+      apply (alast_In key_eqb key_eqb_eq) in Ea. apply in_map_iff. now exists ((v, k), f).
+  - split.
+    + intros Hin. exfalso. rewrite Hg in H. apply (proj1 H eq_refl). exact Hin.
+    + intros [-> _]. now rewrite text_eqb_refl in E.
+Qed.
+Lemma idx_keys_nth v fs : forall idx i,
+  nth_error (map fst (idx_entries v idx fs)) i = if Nat.ltb i (length fs) then Some (v, Some (idx + N.of_nat i)) else None.
+Proof.
+  induction fs as [|f fs IH]; intros idx i; cbn [idx_entries map length].
+  - now destruct i.
+  - destruct i as [|i]; cbn [nth_error].
+    + cbn. now rewrite N.add_0_r.
+    + rewrite IH. change (Nat.ltb (S i) (S (length fs))) with (Nat.ltb i (length fs)).
+      destruct (Nat.ltb i (length fs)); [|reflexivity]. replace (idx + N.of_nat (S i)) with (idx + 1 + N.of_nat i) by lia. reflexivity.
+Qed.
+Lemma idx_keys_length v fs idx : length (map fst (idx_entries v idx fs)) = length fs.
+Proof. revert idx. induction fs as [|f fs IH]; intros idx; cbn; [reflexivity | now rewrite IH]. Qed.
+Lemma idx_keys_by_length v fs fs' idx : length fs = length fs' -> map fst (idx_entries v idx fs) = map fst (idx_entries v idx fs').
+Proof.
+  revert fs' idx. induction fs as [|f fs IH]; intros [|f' fs'] idx H; try discriminate; [reflexivity|].
+  cbn [idx_entries map fst]. f_equal. apply IH. now inversion H.
+Qed.
+Lemma idx_keys_ge v fs : forall idx w i, In (w, Some i) (map fst (idx_entries v idx fs)) -> idx <= i.
+Proof.
+  induction fs as [|f fs IH]; intros idx w i; cbn [idx_entries map fst]; [intros []|].
+  intros [H|H]; [inversion H; lia | apply IH in H; lia].
+Qed.
+Lemma idx_keys_nodup v fs : forall idx, NoDup (map fst (idx_entries v idx fs)).
+Proof.
+  induction fs as [|f fs IH]; intros idx; cbn [idx_entries map fst]; constructor; [|apply IH].
+  intros H. apply idx_keys_ge in H. lia.
+Qed.
+Lemma keys_of_nodup vc : NoDup (keys_of vc).
+Proof.
+  destruct vc as [v [b f | l s r]]; unfold keys_of, entries; cbn [snd fst].
+  - cbn. constructor; [intros [] | constructor].
+  - apply idx_keys_nodup.
+Qed.
+Lemma keys_of_skeleton v c c' : skeleton c = skeleton c' -> keys_of (v, c) = keys_of (v, c').
+Proof.
+  intros H. pose proof (skeleton_leaf_length _ _ H) as HL.
+  destruct c as [b f | l s r], c' as [b' f' | l' s' r']; try discriminate H; unfold keys_of, entries; cbn [snd fst].
+  - reflexivity.
+  - now apply idx_keys_by_length.
+Qed.
+Lemma keys_of_fst vc k : In k (keys_of vc) -> fst k = fst vc.
+Proof. destruct vc as [v c], k as [w kk]. intros H. apply keys_of_In in H. now destruct H. Qed.
+
+Lemma map_flat_map {A B C} (f : B -> C) (g : A -> list B) l : map f (flat_map g l) = flat_map (fun x => map f (g x)) l.
+Proof. induction l as [|x l IH]; cbn; [reflexivity | now rewrite map_app, IH]. Qed.
+Lemma filter_flat_map {A B} (p : B -> bool) (g : A -> list B) l : filter p (flat_map g l) = flat_map (fun x => filter p (g x)) l.
+Proof. induction l as [|x l IH]; cbn; [reflexivity | now rewrite filter_app, IH]. Qed.
+Lemma flat_map_ext_In {A B} (f g : A -> list B) l : (forall x, In x l -> f x = g x) -> flat_map f l = flat_map g l.
+Proof.
+  induction l as [|x l IH]; intros H; cbn; [reflexivity|].
+  rewrite (H x (or_introl eq_refl)), IH; [reflexivity|]. intros y Hy. apply H. now right.
+Qed.
+Lemma filter_all_true {A} (p : A -> bool) l : (forall x, In x l -> p x = true) -> filter p l = l.
+Proof.
+  induction l as [|x l IH]; intros H; cbn; [reflexivity|].
+  rewrite (H x (or_introl eq_refl)), IH; [reflexivity|]. intros y Hy. apply H. now right.
+Qed.
+Lemma filter_all_false {A} (p : A -> bool) l : (forall x, In x l -> p x = false) -> filter p l = [].
+Proof.
+  induction l as [|x l IH]; intros H; cbn; [reflexivity|].
+  rewrite (H x (or_introl eq_refl)), IH; [reflexivity|]. intros y Hy. apply H. now right.
+Qed.
+Lemma Forall2_flat_map {A B C} (R : B -> C -> Prop) (G : A -> list B) (H : A -> list C) l :
+  (forall x, In x l -> Forall2 R (G x) (H x)) -> Forall2 R (flat_map G l) (flat_map H l).
+Proof.
+  induction l as [|x l IH]; intros Hx; cbn; [constructor|].
+  apply Forall2_app; [apply Hx; now left | apply IH; intros y Hy; apply Hx; now right].
+Qed.
+
+(* keys in insertion order = per distinct variable (first occurrence), the keys of its binding *)
+Lemma new_keys_flat (g : text -> list key) bs :
+  (forall v c, In (v, c) bs -> keys_of (v, c) = g v) ->
+  forall seen seenV,
+  (forall v, In v (map fst bs) -> (In v seenV -> forall k, In k (g v) -> In k seen) /\ (~ In v seenV -> forall k, In k seen -> fst k <> v)) ->
+  knew seen (flat_map keys_of bs) = flat_map g (first_occ seenV (map fst bs)).
+Proof.
+  induction bs as [|[v c] bs IH]; intros Hg seen seenV Hs; [reflexivity|].
+  cbn [flat_map map fst first_occ]. rewrite new_keys_app.
+  assert (Hgv : keys_of (v, c) = g v) by (apply Hg; now left).
+  assert (Hg' : forall w d, In (w, d) bs -> keys_of (w, d) = g w) by (intros w d Hin; apply Hg; now right).
+  destruct (Hs v (or_introl eq_refl)) as [Hs1 Hs2].
+  destruct (text_in v seenV) eqn:Ev.
+  - apply text_in_In in Ev. rewrite (new_keys_all_seen seen (keys_of (v, c))).
+    + rewrite app_nil_r. cbn [app]. apply IH; [exact Hg'|]. intros w Hw. apply Hs. now right.
+    + rewrite Hgv. now apply Hs1.
+  - assert (Hnv : ~ In v seenV) by (intros Hin; apply text_in_In in Hin; congruence).
+    rewrite (new_keys_fresh (keys_of (v, c)) seen (keys_of_nodup _)).
+    + cbn [flat_map]. rewrite <- Hgv. f_equal. rewrite Hgv. apply IH; [exact Hg'|].
+      intros w Hw. destruct (Hs w (or_intror Hw)) as [Hw1 Hw2]. split.
+      * intros [->|Hin] k Hk; apply in_or_app; [now right | left; now apply Hw1].
+      * intros Hn k Hk. apply in_app_or in Hk as [Hk|Hk].
+        -- apply Hw2; [|exact Hk]. intros Hin. apply Hn. now right.
+        -- rewrite <- Hgv in Hk. apply keys_of_fst in Hk. cbn [fst] in Hk. rewrite Hk. intros ->. apply Hn. now left.
+    + intros k Hk Hin. apply keys_of_fst in Hk. cbn [fst] in Hk. exact (Hs2 Hnv k Hin Hk).
+Qed.
+
+Definition bound_keys (bs : list (text * cat)) (v : text) : list key :=
+  match last_binding v bs with Some c => keys_of (v, c) | None => [] end.
+Lemma bound_keys_ok bs : vars_agree bs -> forall v c, In (v, c) bs -> keys_of (v, c) = bound_keys bs v.
+Proof.
+  intros Ha v c Hin. unfold bound_keys. destruct (last_binding v bs) as [c'|] eqn:El.
+  - apply keys_of_skeleton. apply cat_xor_skeleton. apply (Ha v); [exact Hin | now apply last_binding_In].
+  - exfalso. apply last_binding_none in El. apply El. apply in_map_iff. now exists (v, c).
+Qed.
+Lemma feats_all_keys bs : vars_agree bs -> map fst (feats_all bs []) = flat_map (bound_keys bs) (first_occ [] (map fst bs)).
+Proof.
+  intros Ha. unfold feats_all. rewrite (set_list_keys key_eqb key_eqb_eq (flat_map entries bs) []). cbn [map app].
+  rewrite map_flat_map. change (flat_map (fun x => map fst (entries x)) bs) with (flat_map keys_of bs).
+  apply new_keys_flat; [now apply bound_keys_ok|]. intros v _. split; [intros [] | intros _ k []].
+Qed.
+
+Lemma nth_error_combine {A B} (l1 : list A) : forall (l2 : list B) i a b, nth_error (combine l1 l2) i = Some (a, b) ->
+  nth_error l1 i = Some a /\ nth_error l2 i = Some b.
+Proof.
+  induction l1 as [|x l1 IH]; intros [|y l2] i a b; cbn [combine]; try (destruct i; discriminate).
+  destruct i as [|i]; cbn [nth_error].
+  - intros H. inversion H. auto.
+  - apply IH.
+Qed.
+(* the keys of a binding, paired with the leaf features of two bindings of the same skeleton *)
+Lemma keys_combine v cx cy : skeleton cx = skeleton cy ->
+  Forall2 (fun k p => fst k = v /\ entry_get cx (snd k) = Some (fst p) /\ entry_get cy (snd k) = Some (snd p))
+          (keys_of (v, cx)) (combine (leaf_feats cx) (leaf_feats cy)).
+Proof.
+  intros H. pose proof (skeleton_leaf_length _ _ H) as HL.
+  destruct cx as [b f | l s r], cy as [b' f' | l' s' r']; try discriminate H; unfold keys_of, entries; cbn [snd fst].
+  - cbn. constructor; [auto | constructor].
+  - apply Forall2_of_nth.
+    + rewrite idx_keys_length, combine_length, <- HL. lia.
+    + intros i k [a b] Hk Hp. rewrite idx_keys_nth in Hk. destruct (Nat.ltb i _); [|discriminate]. inversion Hk; subst k.
+      apply nth_error_combine in Hp as [H1 H2]. cbn [fst snd entry_get]. rewrite ?N.add_0_l, Nat2N.id. auto.
+Qed.
+
+Lemma Forall2_weaken {A B} (R S : A -> B -> Prop) l1 l2 : (forall a b, R a b -> S a b) -> Forall2 R l1 l2 -> Forall2 S l1 l2.
+Proof. intros H. induction 1; constructor; auto. Qed.
+(* the loop looks up exactly `comparisons`, in that order *)
+Lemma shared_comparisons bx by_ : vars_agree (bx ++ by_) ->
+  Forall2 (looked_up (feats_all bx []) (feats_all by_ [])) (shared (feats_all bx []) (feats_all by_ [])) (comparisons bx by_).
+Proof.
+  intros Ha. pose proof (vars_agree_app_l _ _ Ha) as Hax. pose proof (vars_agree_app_r _ _ Ha) as Hay.
+  unfold shared, comparisons. rewrite (feats_all_keys bx Hax), filter_flat_map.
+  apply Forall2_flat_map. intros v _. unfold bound_keys.
+  destruct (last_binding v bx) as [cx|] eqn:Ex; [|constructor].
+  destruct (last_binding v by_) as [cy|] eqn:Ey.
+  - assert (Hs : skeleton cx = skeleton cy).
+    { apply cat_xor_skeleton. apply (Ha v); apply in_or_app; [left | right]; now apply last_binding_In. }
+    rewrite filter_all_true.
+    + eapply Forall2_weaken; [|apply (keys_combine v cx cy Hs)].
+      intros [w k] [a b] (Hw & H1 & H2). cbn [fst snd] in *. subst w. unfold looked_up. cbn [fst snd].
+      rewrite (feats_all_get bx Hax), (feats_all_get by_ Hay), Ex, Ey. auto.
+    + intros [w k] Hk. apply keys_of_In in Hk as [-> Hk]. unfold dhas. rewrite (feats_all_get by_ Hay), Ey.
+      destruct (entry_get cy k) eqn:Eg; [reflexivity|]. exfalso. apply Hk. now apply (entry_get_skeleton cx cy k Hs).
+  - rewrite filter_all_false; [constructor|].
+    intros [w k] Hk. apply keys_of_In in Hk as [-> Hk]. unfold dhas. now rewrite (feats_all_get by_ Hay), Ey.
+Qed.
+
+(* the exact outcome of a match whose shape and agreement conditions hold *)
+Lemma unify_outcome_ordered px py x y bx by_ : binds px x = Some bx -> binds py y = Some by_ -> vars_agree (bx ++ by_) ->
+  unify px py x y =
+  match run_tests (comparisons bx by_) with
+  | Err e => Err e
+  | Ok_ false => Ok_ None
+  | Ok_ true => Ok_ (Some {| ucats := set_all (bx ++ by_) []; umap := build_map (comparisons bx by_) [] |})
+  end.
+Proof.
+  intros Hbx Hby Ha. rewrite unify_char, Hbx, Hby.
+  destruct (proj2 (bind_all_iff (bx ++ by_) []) (conj Ha (agree_with_empty _))) as [c2 Hc2].
+  rewrite Hc2. apply bind_all_result in Hc2. subst c2. cbv zeta.
+  rewrite (floop_run _ _ _ _ (shared_comparisons bx by_ Ha) []). unfold bind. now destruct (run_tests (comparisons bx by_)) as [[|]|e].
+Qed.
+
+(* ---------- exact error / failure conditions ---------- *)
+Definition all_ok (ps : list (feat * feat)) : Prop := Forall (fun p => compat_ok (fst p) (snd p)) ps.
+Lemma unify_error_iff px py x y e : unify px py x y = Err e <->
+  e = AttrErr /\ exists bx by_ pre a b post, binds px x = Some bx /\ binds py y = Some by_ /\ vars_agree (bx ++ by_) /\
+     comparisons bx by_ = pre ++ (a, b) :: post /\ all_ok pre /\ compat a b = Err AttrErr.
+Proof.
+  split.
+  - intros H. destruct (binds px x) as [bx|] eqn:Hbx; [|rewrite (unify_fail_shape_x _ _ _ _ Hbx) in H; discriminate].
+    destruct (binds py y) as [by_|] eqn:Hby; [|rewrite (unify_fail_shape_y _ _ _ _ Hby) in H; discriminate].
+    destruct (vars_agree_dec (bx ++ by_)) as [Ha|Hn]; [|rewrite (unify_fail_agree _ _ _ _ _ _ Hbx Hby Hn) in H; discriminate].
+    rewrite (unify_outcome_ordered _ _ _ _ _ _ Hbx Hby Ha) in H.
+    destruct (run_tests_cases (comparisons bx by_)) as [[Hr _]|(pre & a & b & post & Hc & Hpre & [[Hr _]|[e1 [Hr Hab]]])];
+      rewrite Hr in H; try discriminate.
+    inversion H; subst e1. destruct (compat_err _ _ _ Hab) as [-> _]. split; [reflexivity|].
+    exists bx, by_, pre, a, b, post. repeat split; assumption.
+  - intros [-> (bx & by_ & pre & a & b & post & Hbx & Hby & Ha & Hc & Hpre & Hab)].
+    rewrite (unify_outcome_ordered _ _ _ _ _ _ Hbx Hby Ha), Hc.
+    assert (Hr : run_tests (pre ++ (a, b) :: post) = Err AttrErr).
+    { clear Hc. induction pre as [|[a' b'] pre IH]; cbn [app run_tests]; [now rewrite Hab|].
+      inversion Hpre as [|? ? H1 H2]; subst. cbn [fst snd] in H1. unfold compat_ok in H1. rewrite H1. now apply IH. }
+    now rewrite Hr.
+Qed.
+Lemma unify_false_iff px py x y : unify px py x y = Ok_ None <->
+  ~ (shape px x /\ shape py y /\ vars_agree (bindings px py x y)) \/
+  exists bx by_ pre a b post, binds px x = Some bx /\ binds py y = Some by_ /\ vars_agree (bx ++ by_) /\
+     comparisons bx by_ = pre ++ (a, b) :: post /\ all_ok pre /\ compat a b = Ok_ false.
+Proof.
+  split.
+  - intros H. destruct (binds px x) as [bx|] eqn:Hbx.
+    2: { left. unfold shape. rewrite Hbx. intros [Hs _]. now apply Hs. }
+    destruct (binds py y) as [by_|] eqn:Hby.
+    2: { left. unfold shape. rewrite Hby. intros (_ & Hs & _). now apply Hs. }
+    destruct (vars_agree_dec (bx ++ by_)) as [Ha|Hn].
+    2: { left. unfold bindings, obinds. rewrite Hbx, Hby. tauto. }
+    right. rewrite (unify_outcome_ordered _ _ _ _ _ _ Hbx Hby Ha) in H.
+    destruct (run_tests_cases (comparisons bx by_)) as [[Hr _]|(pre & a & b & post & Hc & Hpre & [[Hr Hab]|[e1 [Hr _]]])];
+      rewrite Hr in H; try discriminate.
+    exists bx, by_, pre, a, b, post. repeat split; assumption.
+  - intros [Hn|(bx & by_ & pre & a & b & post & Hbx & Hby & Ha & Hc & Hpre & Hab)]; [now apply unify_fail_shape_agree|].
+    rewrite (unify_outcome_ordered _ _ _ _ _ _ Hbx Hby Ha), Hc.
+    assert (Hr : run_tests (pre ++ (a, b) :: post) = Ok_ false).
+    { clear Hc. induction pre as [|[a' b'] pre IH]; cbn [app run_tests]; [now rewrite Hab|].
+      inversion Hpre as [|? ? H1 H2]; subst. cbn [fst snd] in H1. unfold compat_ok in H1. rewrite H1. now apply IH. }
+    now rewrite Hr.
+Qed.
+
+(* ---------- the exact binding ---------- *)
+Lemma upd_get_exact a b m g :
+  dget feat_eqb g (upd a b m) = match inst_step g (a, b) with Some h => Some h | None => dget feat_eqb g m end.
+Proof.
+  unfold upd, inst_step. cbn [fst snd].
+  destruct (unifies a b) as [[|]|e].
+  - destruct (is_variable a); cbn [andb]; [|reflexivity]. rewrite (dget_dset _ feat_eqb_eq). now destruct (feat_eqb g a).
+  - destruct (is_variable b); cbn [andb]; [|reflexivity]. rewrite (dget_dset _ feat_eqb_eq). now destruct (feat_eqb g b).
+  - destruct (is_variable b); cbn [andb]; [|reflexivity]. rewrite (dget_dset _ feat_eqb_eq). now destruct (feat_eqb g b).
+Qed.
+Lemma build_map_instantiation ps : forall m g,
+  dget feat_eqb g (build_map ps m) = match instantiation g ps with Some h => Some h | None => dget feat_eqb g m end.
+Proof.
+  induction ps as [|[a b] ps IH]; intros m g; [reflexivity|].
+  cbn [build_map fold_left fst snd instantiation]. change (fold_left _ ps (upd a b m)) with (build_map ps (upd a b m)).
+  rewrite IH. destruct (instantiation g ps); [reflexivity|]. apply upd_get_exact.
+Qed.
+Lemma subst_feat_instantiate ps f : subst_feat (build_map ps []) f = instantiate_feat ps f.
+Proof. unfold subst_feat, instantiate_feat. rewrite build_map_instantiation. now destruct (instantiation f ps). Qed.
+Lemma binding_exact px py x y st v c : unify px py x y = Ok_ (Some st) -> uget st v = Ok_ c ->
+  exists c0, last_binding v (bindings px py x y) = Some c0 /\ skeleton c = skeleton c0 /\
+             leaf_feats c = map (instantiate_feat (comparisons (obinds px x) (obinds py y))) (leaf_feats c0).
+Proof.
+  intros Hu Hg. destruct (binds px x) as [bx|] eqn:Hbx; [|rewrite (unify_fail_shape_x _ _ _ _ Hbx) in Hu; discriminate].
+  destruct (binds py y) as [by_|] eqn:Hby; [|rewrite (unify_fail_shape_y _ _ _ _ Hby) in Hu; discriminate].
+  destruct (vars_agree_dec (bx ++ by_)) as [Ha|Hn]; [|rewrite (unify_fail_agree _ _ _ _ _ _ Hbx Hby Hn) in Hu; discriminate].
+  rewrite (unify_outcome_ordered _ _ _ _ _ _ Hbx Hby Ha) in Hu.
+  destruct (run_tests (comparisons bx by_)) as [[|]|e]; try discriminate. inversion Hu; subst st.
+  unfold bindings, obinds. rewrite Hbx, Hby. rewrite (uget_char {| ucats := set_all (bx ++ by_) []; umap := build_map (comparisons bx by_) [] |} (bx ++ by_) v eq_refl) in Hg. cbn [umap] in Hg.
+  destruct (last_binding v (bx ++ by_)) as [c0|]; [|discriminate]. inversion Hg; subst c. exists c0.
+  split; [reflexivity|]. split; [apply subst_skeleton|]. rewrite subst_leaf_feats.
+  apply map_ext. intros f. apply subst_feat_instantiate.
+Qed.
+
+(* ---------- linear patterns: keys and shared variables ---------- *)
+Lemma first_occ_nodup l : forall seen, NoDup l -> (forall v, In v l -> ~ In v seen) -> first_occ seen l = l.
+Proof.
+  induction l as [|v l IH]; intros seen Hn H; cbn [first_occ]; [reflexivity|].
+  inversion Hn as [|? ? Hv Hn']; subst.
+  assert (Hs : text_in v seen = false).
+  { destruct (text_in v seen) eqn:E; [|reflexivity]. apply text_in_In in E. exfalso. apply (H v); [now left | exact E]. }
+  rewrite Hs. f_equal. apply IH; [exact Hn'|]. intros w Hw [->|Hin]; [contradiction | apply (H w); [now right | exact Hin]].
+Qed.
+Lemma flat_map_map {A B C} (f : A -> B) (g : B -> list C) l : flat_map g (map f l) = flat_map (fun x => g (f x)) l.
+Proof. induction l as [|x l IH]; cbn; [reflexivity | now rewrite IH]. Qed.
+Lemma flat_map_filter {A B} (p : A -> bool) (g : A -> list B) l : flat_map g (filter p l) = flat_map (fun x => if p x then g x else []) l.
+Proof. induction l as [|x l IH]; cbn; [reflexivity|]. destruct (p x); cbn; now rewrite IH. Qed.
+Lemma scan_true_inv s t cats r c' r' : scan s t cats r = (true, c', r') ->
+  exists bs, binds s t = Some bs /\ bind_all bs cats = Some c' /\ r' = feats_all bs r.
+Proof.
+  intros H. pose proof (scan_spec s t cats r) as Hs. rewrite H in Hs. cbn [fst] in Hs.
+  destruct (binds s t) as [bs|]; [|discriminate]. destruct (bind_all bs cats) as [c1|] eqn:Eb; [|discriminate].
+  inversion Hs; subst. now exists bs.
+Qed.
+Lemma linear_shared px py x y bx by_ c1 xf c2 yf : linear_pattern px = true -> linear_pattern py = true ->
+  binds px x = Some bx -> binds py y = Some by_ -> scan px x [] [] = (true, c1, xf) -> scan py y c1 [] = (true, c2, yf) ->
+  map fst xf = flat_map (fun vc => map fst (entries vc)) bx /\
+  shared xf yf = flat_map (fun vc => map fst (entries vc)) (filter (fun vc => text_in (fst vc) (pattern_vars py)) bx).
+Proof.
+  intros Hlx Hly Hbx Hby Hsx Hsy.
+  apply scan_true_inv in Hsx as (bx' & Hbx' & Hb1 & ->). rewrite Hbx in Hbx'. inversion Hbx'; subst bx'.
+  apply scan_true_inv in Hsy as (by' & Hby' & Hb2 & ->). rewrite Hby in Hby'. inversion Hby'; subst by'.
+  assert (Ha : vars_agree (bx ++ by_)).
+  { apply (proj1 (bind_all_iff (bx ++ by_) [])). exists c2. now rewrite bind_all_app, Hb1. }
+  pose proof (vars_agree_app_l _ _ Ha) as Hax. pose proof (vars_agree_app_r _ _ Ha) as Hay.
+  pose proof (linear_binds_nodup _ _ _ Hlx Hbx) as Hnx.
+  assert (Hkeys : map fst (feats_all bx []) = flat_map keys_of bx).
+  { rewrite (feats_all_keys bx Hax), (first_occ_nodup _ [] Hnx) by (intros v _ []). rewrite flat_map_map.
+    apply flat_map_ext_In. intros [v c] Hin. cbn [fst]. symmetry. now apply bound_keys_ok. }
+  split; [exact Hkeys|].
+  unfold shared. rewrite Hkeys, filter_flat_map, flat_map_filter. apply flat_map_ext_In. intros [v c] Hin. cbn [fst].
+  change (map fst (entries (v, c))) with (keys_of (v, c)).
+  destruct (text_in v (pattern_vars py)) eqn:Ev.
+  - apply filter_all_true. intros [w k] Hk. apply keys_of_In in Hk as [-> Hk]. unfold dhas. rewrite (feats_all_get by_ Hay).
+    apply text_in_In in Ev. rewrite <- (binds_vars _ _ _ Hby) in Ev.
+    destruct (last_binding v by_) as [cy|] eqn:Ey; [|apply last_binding_none in Ey; contradiction].
+    assert (Hs : skeleton c = skeleton cy).
+    { apply cat_xor_skeleton. apply (Ha v); apply in_or_app; [now left | right; now apply last_binding_In]. }
+    destruct (entry_get cy k) eqn:Eg; [reflexivity|]. exfalso. apply Hk. now apply (entry_get_skeleton c cy k Hs).
+  - apply filter_all_false. intros [w k] Hk. apply keys_of_In in Hk as [-> Hk]. unfold dhas. rewrite (feats_all_get by_ Hay).
+    destruct (last_binding v by_) as [cy|] eqn:Ey; [|reflexivity].
+    exfalso. apply last_binding_In in Ey. assert (Hin' : In v (map fst by_)) by (apply in_map_iff; now exists (v, cy)).
+    rewrite (binds_vars _ _ _ Hby) in Hin'. apply text_in_In in Hin'. congruence.
+Qed.
+
+(* "False otherwise" does not hold without the one-feature-system hypothesis: a witness *)
+Lemma otherwise_false_mixed_witness : exists px py x y, ~ matches px py x y /\ unify px py x y = Err AttrErr.
+Proof.
+  exists (Fun (Atom [97] FNone) [cSL] (Atom [98] FNone)), (Atom [98] FNone),
+         (Fun (Atom [83] FNone) [cSL] (Atom [78;80] (FUn [100]))), (Atom [78;80] (FTer [97] [98] [99] [100] [101] [102])).
+  split; [|vm_compute; reflexivity]. intros H. apply matchesb_ok in H. vm_compute in H. discriminate.
+Qed.
+
+(* =====================================================================================================
+   LEMMAS MEANT FOR REUSE by the rule-soundness proofs (C03 English rules, C04 Japanese rules); names are stable.
+
+   from a successful match:   unify_success_inv, unify_success_iff, matches_inv, matchesb_ok, unify_success_b
+   to a successful match:     unify_success_intro
+   failure / errors:          unify_fail_shape_x, unify_fail_shape_y, unify_fail_agree, unify_fail_shape_agree, unify_fail_iff,
+                              unify_false_iff, unify_no_error, unify_error_inv, unify_error_iff, unify_not_matches
+   exact outcome:             unify_outcome_ordered (run_tests (comparisons bx by)), unify_outcome, unify_char
+   bindings:                  uget_char, binding_shape, binding_exact, binding_xor, binding_feats_from_inputs, bound_vars_readable,
+                              missing_var_keyerror, binding_ground, binding_unchanged, build_map_keys_variable, build_map_instantiation
+   substitution:              subst_skeleton, subst_leaf_feats, subst_atoms, subst_xor, subst_id, subst_feat_instantiate
+   feature tests:             compat_char (closed form compat_fn), compat_true_iff, compat_err_iff, compat_refl, compat_err, unifies_err,
+                              unifies_unary, unifies_ter, lenient_b_ok, covers_b_ok
+   ^ is an equivalence:       cat_xor_skeleton, cat_xor_refl, cat_xor_sym, cat_xor_trans, skeleton_leaf_length, leaf_feats_atoms
+   spec plumbing:             binds_vars, binds_leaf_incl, compared_leaves, last_binding_app / _In / _none / _alast, set_all_get,
+                              vars_agree_app_l / _r / _tail, vars_agree_dec, vars_agreeb_ok, feats_compatibleb_ok, feats_compatible_compared
+   linear patterns:           linear_binds_nodup, linear_last_binding, linear_vars_agree, nodup_last_binding, nodup_binding_unique, linear_shared
+   object protocol:           no_read_after_failure, no_read_before_call, answers_once, answers_once_after_call, read_after_success
+   dictionaries (generic):    dget_dset_same, dget_dset_other, dget_dset, dget_In, dget_none, dhas_In, dset_keys, set_list_app, alast_app,
+                              dget_set_list, alast_In, alast_none, set_list_keys, key_eqb_eq
+   model internals:           scan_deep_spec, scan_spec, scan_true_inv, bind_all_iff, bind_all_result, feats_all_get, feats_all_keys,
+                              floop_cons, floop_run, run_tests_true, run_tests_cases, shared_In, shared_comparisons
+   ===================================================================================================== *)
